@@ -91,7 +91,7 @@ class DiagLinearOperator(TriangularLinearOperator):
         return DiagLinearOperator(self._diag * other._diagonal())
 
     def _prod_batch(self, dim: int) -> LinearOperator:
-        return self.__class__(self._diag.prod(dim))
+        return DiagLinearOperator(self._diag.prod(dim))
 
     def _root_decomposition(
         self: Float[LinearOperator, "... N N"]
@@ -109,7 +109,7 @@ class DiagLinearOperator(TriangularLinearOperator):
         return torch.Size([*self._diag.shape, *self._diag.shape[-1:]])
 
     def _sum_batch(self, dim: int) -> LinearOperator:
-        return self.__class__(self._diag.sum(dim))
+        return DiagLinearOperator(self._diag.sum(dim))
 
     def _t_matmul(
         self: Float[LinearOperator, "*batch M N"],
